@@ -99,6 +99,32 @@ def run(ctx):
                 pre, pim = Q.corner_of_phases(ph)
                 cases.append({"fn": "completion", "coefs": Q.cplx_hex(pre, pim), "complex": True, "coef_type": "P", "kind": "nearly-real",
                               "mode": "achievable", "timeout": 120})
+        # directed: corners with a coefficient that is non-zero but below 1e-8 of the largest one and above the 1e-9 |P|_1 budget
+        # (special phases, one of them moved by a few 1e-9): such a coefficient is part of P, not noise
+        found, tries = 0, 0
+        while found < (4 if quick else 24) and tries < 4000:
+            tries += 1
+            d = rng.randint(2, 6)
+            ph = [rng.choice([0.0, 0.0, math.pi / 2, -math.pi / 2, math.pi / 4, math.pi]) for _ in range(d + 1)]
+            ph[rng.randrange(d + 1)] += rng.choice([2e-9, 5e-9, 8e-9, 2e-8]) * rng.choice([-1, 1])
+            pre, pim = Q.corner_of_phases(ph)
+            mags = [abs(complex(a, b)) for a, b in zip(pre, pim)]
+            big, n1 = max(mags), sum(abs(a) + abs(b) for a, b in zip(pre, pim))
+            if big > 0 and any(3e-9 * n1 < m < 0.8e-8 * big for m in mags):
+                found += 1
+                cases.append({"fn": "completion", "coefs": Q.cplx_hex(pre, pim), "complex": True, "coef_type": "P", "kind": "tiny-coefficient",
+                              "mode": "achievable", "timeout": 120})
+        # directed: P = e^{i alpha} (x^d + i eps (x^(d mod 2) - x^d)) with eps of a few 1e-9: |P| <= 1, definite parity, and the eps-sized coefficient
+        # is part of P (1e-9 |P|_1 < eps < 1e-8 max|coef|)
+        for d in ((2, 3, 5) if quick else range(2, 9)):
+            for eps_, alpha in ((5e-9, 0.0), (8e-9, 0.4)):
+                base = [0j] * (d + 1)
+                base[d] = 1 - 1j * eps_
+                base[d % 2] = 1j * eps_
+                rot = complex(math.cos(alpha), math.sin(alpha))
+                pc = [z * rot for z in base]
+                cases.append({"fn": "completion", "coefs": Q.cplx_hex([z.real for z in pc], [z.imag for z in pc]), "complex": True, "coef_type": "P",
+                              "kind": "tiny-coefficient", "mode": "achievable", "timeout": 120})
         # directed: short inputs scaled below 1 (non-corners of degree 1 and 2), which only the identity coefficient of F~F+G~G exposes
         for d in (1, 2):
             for rep in range(3 if quick else 12):
